@@ -210,7 +210,7 @@ theorem apply_J (y n secs : Int) (hy1 : 2 ≤ y) (hy2 : y ≤ 9998) (hn1 : 1 ≤
 theorem apply_N (y n secs : Int) (hy1 : 2 ≤ y) (hy2 : y ≤ 9998) (hn1 : 0 ≤ n) (hn2 : n ≤ 364)
     (hs1 : -86400 * 300 ≤ secs) (hs2 : secs < 86400 * 300) :
     ∃ m dd, ydayToMonthDay (n + 1) = .ok (m, dd) ∧
-      applyDelta y { month := some m, day := some dd, leapdays := (if n + 1 > 59 then -1 else 0), seconds := secs }
+      applyDelta y { month := some m, day := some dd, leapdays := (if 59 < n + 1 ∧ n + 1 < 366 then -1 else 0), seconds := secs }
         = .ok (ruleOrdinal y (.N n) * 86400 + secs) := by
   obtain ⟨m, dd, he, m1, m12, d1, d2, hsum, hiff⟩ := yday_spec (n + 1) (by omega) (by omega)
   refine ⟨m, dd, he, ?_⟩
